@@ -54,7 +54,7 @@ META = {
     'trusted': [
         'virtual time: every clock read advances by >= 1 tick; durations are those the fake drivers sleep on the patched clock',
         'instrumentation: mobj.callPollFunc / writeInitParams / triggerPoll.wait / triggerPoll.clear are wrapped on the instances (the originals run inside); '
-        'a writeInitParams call is recorded as the late one (call kind w) when the start-up callback has already been called',
+        'every writeInitParams call of the poll thread is a call of kind w, every initialReads (generated) a call of kind i',
         'the recipe of the generated classes (decls_of: how each read function is declared; enablePoll) as reported to the judge',
         'BaseException (SystemExit, KeyboardInterrupt) is deliberately not contained by callPollFunc and is outside the statement',
     ],
@@ -325,6 +325,7 @@ def build_classes(rec, spec_mods, T):
 
         def initialReads(self, _s=init_script, _r=init_reads, mi=mi):
             k, d, o = _script_next(rec, (mi, 'init'), _s)
+            rec.begin(rec.index[self.name], 'i')       # `initialReads` is a call of its own ('i')
             rec.depth += 1
             try:
                 for pn in _r:
@@ -338,7 +339,7 @@ def build_classes(rec, spec_mods, T):
                 raise
             finally:
                 rec.depth -= 1
-                rec.end()          # the 'init' call began in writeInitParams
+                rec.end()
         ns['initialReads'] = initialReads
 
         if spec.get('written'):
@@ -347,7 +348,7 @@ def build_classes(rec, spec_mods, T):
             wd, wo = spec.get('wscript', [0, 'ok'])
 
             def write_w(self, value, _d=wd, _o=wo):
-                # the write of the configured value at start-up (inside writeInitParams, i.e. inside the 'init' call)
+                # the write of the configured value at start-up (inside writeInitParams, i.e. inside a 'w' call)
                 if _d:
                     T.sleep(_d / TICKS)
                 _raise(_o)
@@ -493,6 +494,7 @@ def impl_run(case):
         if missing or not thread_mods:
             raise HarnessProblem(f'modules do not share one poll thread: {[m.name for m in thread_mods]} (missing {missing})')
         index = {m.name: i for i, m in enumerate(thread_mods)}       # model index = position in the thread's list
+        rec.index = index
         spec_of = {('m%d' % mi): spec for mi, spec in enumerate(spec_mods)}
 
         model_mods, judge_mods, impl_flags = [], [], []
@@ -541,17 +543,13 @@ def impl_run(case):
             mobj.callPollFunc = cpf
 
             def wip(_orig=mobj.writeInitParams, _i=i):
-                if state['started'] is not None:
-                    # behind the start-up round (the start-up callback has been called): `__pollThread` hands every module
-                    # its configured values once more — a call of its own ('w'), nothing follows it
-                    rec.begin(_i, 'w')
-                    try:
-                        return _orig()
-                    finally:
-                        if rec.cur is not None:
-                            rec.end()
-                rec.begin(_i, 'i')          # start-up round: the 'init' call ends with initialReads
-                return _orig()
+                # every `writeInitParams` of the poll thread — in the start-up round and behind it — is a call of its own ('w')
+                rec.begin(_i, 'w')
+                try:
+                    return _orig()
+                finally:
+                    if rec.cur is not None:
+                        rec.end()
             mobj.writeInitParams = wip
 
         ev = owner.triggerPoll
